@@ -28,13 +28,13 @@ NearKeys == << << 104, 111, 115 >>, << 104, 111, 115, 116, 120 >>, << 72, 111, 1
               << 115, 115 >>, << 73 >>, KHost, KPort >>
 Keys == NearKeys
 Vec(pairs, cls) ==
-  [ops |-> << [op |-> "RAddrAccess", fn |-> "accessors", via |-> "ctor", pairs |-> pairs, keys |-> Keys, cls |-> cls],
-              [op |-> "RAddrAccess", fn |-> "accessors", via |-> "parse", pairs |-> pairs, keys |-> Keys, cls |-> cls,
+  [ops |-> << [op |-> "RAddrAccess", fn |-> "accessors", via |-> "ctor", pairs |-> pairs, keys |-> Keys, intronums |-> << -1, 0, 1, 2, 3, 10 >>, cls |-> cls],
+              [op |-> "RAddrAccess", fn |-> "accessors", via |-> "parse", pairs |-> pairs, keys |-> Keys, intronums |-> << -1, 0, 1, 2, 3, 10 >>, cls |-> cls,
                in |-> EncRouterAddress(5, Zeros(8), << 78, 84, 67, 80, 50 >>, SortPairs(pairs))],
               \* the parser keeps the received order: the same options in the order given here (usually unsorted) and reversed
-              [op |-> "RAddrAccess", fn |-> "accessors", via |-> "parse", pairs |-> pairs, keys |-> Keys, cls |-> cls \o "/wire-order",
+              [op |-> "RAddrAccess", fn |-> "accessors", via |-> "parse", pairs |-> pairs, keys |-> Keys, intronums |-> << -1, 0, 1, 2, 3, 10 >>, cls |-> cls \o "/wire-order",
                in |-> EncRouterAddress(5, Zeros(8), << 78, 84, 67, 80, 50 >>, pairs)],
-              [op |-> "RAddrAccess", fn |-> "accessors", via |-> "parse", pairs |-> pairs, keys |-> Keys, cls |-> cls \o "/reversed",
+              [op |-> "RAddrAccess", fn |-> "accessors", via |-> "parse", pairs |-> pairs, keys |-> Keys, intronums |-> << -1, 0, 1, 2, 3, 10 >>, cls |-> cls \o "/reversed",
                in |-> EncRouterAddress(5, Zeros(8), << 78, 84, 67, 80, 50 >>, [i \in 1..Len(pairs) |-> pairs[Len(pairs) + 1 - i]])] >>]
 HostVecs == SeqMap(LAMBDA h : Vec(<< << KHost, h >>, << KPort, D(8080) >> >>, "host"), Hosts)
 PortVecs == SeqMap(LAMBDA p : Vec(<< << KHost, V4(10, 0, 0, 1) >>, << KPort, p >> >>, "port"), Ports)
@@ -49,7 +49,16 @@ NearVecs ==
 SILens == << 0, 1, 15, 16, 17, 31, 32, 33, 64, 255 >>
 SIVecs == SeqMap(LAMBDA n : Vec(<< << << 115 >>, Fill(n, 3) >>, << << 105 >>, Fill(n, 4) >> >>, "s-i-len" \o ToString(n)), SILens)
 RndVecs == [k \in 1..(IF Thorough THEN 200 ELSE 20) |-> Vec(<< << KHost, Hosts[RndNat(Seed, k, Len(Hosts)) + 1] >>, << KPort, Ports[RndNat(Seed, k + 500, Len(Ports)) + 1] >> >>, "rnd")]
-Vecs == HostVecs \o PortVecs \o OrderVecs \o NearVecs \o SIVecs \o RndVecs
+\* introducer options: exact keys ih0..ih2 / iexpN / itagN, near misses (ih, ih3, ih00, IH0) and a wire order that is not sorted
+KS(str) == str
+IntroVecs ==
+  << Vec(<< << << 105, 104, 48 >>, Fill(32, 1) >>, << << 105, 104, 49 >>, Fill(32, 2) >>, << << 105, 104, 50 >>, Fill(32, 3) >>,
+            << << 105, 101, 120, 112, 48 >>, << 49 >> >>, << << 105, 101, 120, 112, 50 >>, << 51 >> >>,
+            << << 105, 116, 97, 103, 49 >>, << 55 >> >>, << KHost, V4(10, 0, 0, 2) >> >>, "intro"),
+     Vec(<< << << 105, 104 >>, << 1 >> >>, << << 105, 104, 51 >>, << 2 >> >>, << << 105, 104, 48, 48 >>, << 3 >> >>, << << 73, 72, 48 >>, << 4 >> >>,
+            << << 105, 116, 97, 103 >>, << 5 >> >>, << << 105, 101, 120, 112, 49, 48 >>, << 6 >> >> >>, "intro-nearmiss"),
+     Vec(<< << << 105, 116, 97, 103, 50 >>, << 9 >> >>, << << 105, 104, 49 >>, << 8 >> >> >>, "intro-partial") >>
+Vecs == IntroVecs \o HostVecs \o PortVecs \o OrderVecs \o NearVecs \o SIVecs \o RndVecs
 VARIABLE done
 Init == done = FALSE
 Next == ~done /\ ndJsonSerialize(OutFile, Vecs) /\ PrintT(<< "GENERATED", Len(Vecs) >>) /\ done' = TRUE
